@@ -98,6 +98,7 @@ def stepLine (d : E8.D) (line : String) : String × E8.D :=
   | "sp" :: ws => (Nsq.Model.Split.driverLine ws, d)
   | "rl" :: ws => (Nsq.Model.Relay.driverLine ws, d)
   | "tr" :: ws => (Nsq.Model.ToFileTrace.driverLine ws, d)
+  | "trm" :: ws => (Nsq.Model.ToFileTrace.driverLineM ws, d)
   | _ => ("bad-op", d)
 
 partial def loop (h : IO.FS.Stream) (out : IO.FS.Stream) (d : E8.D) : IO Unit := do
